@@ -15,7 +15,14 @@ func init() {
 		}
 		total := 1 << uint(nf*nf)
 		for g := 0; g < total; g++ {
+			// every other graph goes through ParseFile, with an opener whose files report another name than the one they
+			// were asked for (as the stock FileSystemOpener reports absolute paths)
+			canon := func(i int) string { return fmt.Sprintf("f%d", i) }
 			dc := &dictCase{rootName: "f0"}
+			if g%2 == 1 {
+				canon = func(i int) string { return fmt.Sprintf("/abs/f%d", i) }
+				dc = &dictCase{rootName: canon(0), rootReq: "f0"}
+			}
 			edges := 0
 			for i := 0; i < nf; i++ {
 				var sb strings.Builder
@@ -30,7 +37,7 @@ func init() {
 				if i == 0 {
 					dc.rootText = sb.String()
 				}
-				dc.files = append(dc.files, struct{ req, canon, text string }{fmt.Sprintf("f%d", i), fmt.Sprintf("f%d", i), sb.String()})
+				dc.files = append(dc.files, struct{ req, canon, text string }{fmt.Sprintf("f%d", i), canon(i), sb.String()})
 			}
 			dc.ignoreIdentical = true // repeated includes of one file re-declare identical attributes
 			t, _, op, pan := runDictParse(dc)
@@ -101,7 +108,7 @@ func init() {
 					return 0, 0, false
 				}
 				ef, el, _ := walk(0, map[int]bool{0: true})
-				want := fmt.Sprintf("b%x i%x", []byte(fmt.Sprintf("f%d", ef)), el)
+				want := fmt.Sprintf("b%x i%x", []byte(canon(ef)), el)
 				if got := t.parts[2] + " " + t.parts[3]; got != want {
 					c.Fail("spec", "Parse", "graph-oracle-position", dc.rootText+fmt.Sprintf(" (graph %d on %d files)", g, nf), got, want, "the cycle is reported at the file and line of the $INCLUDE that closes it")
 				}
